@@ -8,6 +8,10 @@ BASE_ASSUME = [
 ]
 
 PROPS = {
+    "C01": {
+        "runs": [{"bin": "mon_ff"}],
+        "assumptions": BASE_ASSUME + ["field configurations use the minimal limb count for their modulus (DESIGN §7)"],
+    },
     "C15": {
         "runs": [{"bin": "mon_ff"}],
         "assumptions": BASE_ASSUME,
